@@ -274,7 +274,7 @@ struct C07World: World {
 template<typename S> std::map<i64, u64> weight_by_item(const S& s) { std::map<i64, u64> m; for (auto it = s.begin(); it != s.end(); ++it) m[static_cast<i64>((*it).first)] += (*it).second; return m; }
 u64 rank_count(const std::map<i64, u64>& m, i64 v) { u64 r = 0; for (auto& kv : m) { if (kv.first > v) break; r += kv.second; } return r; }
 
-enum { K_UPD = 1, K_MERGE = 2, K_NEW = 3 };
+enum { K_UPD = 1, K_MERGE = 2, K_NEW = 3, K_QUERY = 4 };   // K_QUERY: a read-only query (builds / caches whatever a reader caches) between mutations
 
 template<typename Kind> struct C08Exec {
   typedef typename Kind::S S;
@@ -357,6 +357,7 @@ template<typename Kind> struct C08Exec {
       std::unique_ptr<S>& cur = sk[static_cast<size_t>(s.a) % 3];
       if (s.kind == K_NEW) { cur.reset(new S(Kind::make(static_cast<int>(s.b), hra))); min_k[static_cast<size_t>(s.a) % 3] = cur->get_k(); continue; }
       if (!cur) continue;
+      if (s.kind == K_QUERY) { if (!cur->is_empty()) { (void)cur->get_rank(static_cast<float>(s.b % 1000)); (void)cur->get_quantile(0.5); ctx.fault("interleaved_read"); } continue; }
       if (s.kind == K_UPD) {
         for (i64 j = 0; j < s.c; j++) {
           const i64 v = (s.b * 31 + j * 17) % 1000;
@@ -382,6 +383,12 @@ template<typename Kind> struct C08Exec {
         published_error(*cur, min_k[static_cast<size_t>(s.a) % 3]);
         ctx.nontrivial = true;
       }
+      // the rank the sketch answers is the rank of its retained weighted items (the enumeration above works on those): a reader that took a stale
+      // shortcut (cached view, "already sorted" flag) would answer something else
+      if (!cur->is_empty()) { const std::map<i64, u64> w = weight_by_item(*cur); const double nn = static_cast<double>(cur->get_n());
+        for (i64 v : { static_cast<i64>(-1), static_cast<i64>(s.b % 1000), static_cast<i64>(250), static_cast<i64>(500), static_cast<i64>(750), static_cast<i64>(1000) }) { const double got = cur->get_rank(static_cast<float>(v), true), want = static_cast<double>(rank_count(w, v)) / nn;
+          if (std::fabs(got - want) > 1e-12) ctx.fail(fp("answered-rank-differs-from-retained-items"), "rank of " + std::to_string(v) + " answered " + hexd(got) + ", retained items give " + hexd(want) + " after " + (s.kind == K_MERGE ? "merge" : "update")); }
+        ctx.check(); }
       ctx.t(static_cast<u64>(cur->get_n())); ctx.t(static_cast<u64>(cur->get_num_retained()));
     }
   }
@@ -402,6 +409,7 @@ template<typename Kind> struct C08Exec {
         std::unique_ptr<S>& cur = sk[static_cast<size_t>(s.a) % 3]; auto& tcur = tr[static_cast<size_t>(s.a) % 3];
         if (s.kind == K_NEW) { cur.reset(new S(Kind::make(static_cast<int>(s.b), hra))); tcur.clear(); continue; }
         if (!cur) continue;
+        if (s.kind == K_QUERY) { if (!cur->is_empty()) { (void)cur->get_rank(static_cast<float>(s.b % 1000)); (void)cur->get_quantile(0.5); } continue; }
         if (s.kind == K_UPD) for (i64 j = 0; j < s.c; j++) { const i64 v = (s.b * 31 + j * 17) % 1000; cur->update(static_cast<float>(v)); tcur[v] += 1; }
         else if (s.kind == K_MERGE) { std::unique_ptr<S>& src = sk[static_cast<size_t>(s.b) % 3]; if (!src || src.get() == cur.get() || !Kind::mergeable(*cur, *src)) continue; cur->merge(*src); for (auto& kv : tr[static_cast<size_t>(s.b) % 3]) tcur[kv.first] += kv.second; }
       }
@@ -432,7 +440,7 @@ template<typename Kind> struct C08Exec {
 
 struct C08World: World {
   const char* name() const override { return "c08"; }
-  const char* step_name(int k) const override { static const char* nm[] = { "?", "update", "merge", "new" }; return (k >= 1 && k <= 3) ? nm[k] : "step"; }
+  const char* step_name(int k) const override { static const char* nm[] = { "?", "update", "merge", "new", "query" }; return (k >= 1 && k <= 4) ? nm[k] : "step"; }
   std::string family_of(const Plan& p) const override { static const char* kn[] = { "kll", "req", "quantiles" }; return p.cfg.empty() ? "?" : kn[p.cfg[0] % 3]; }
   Plan generate(u64 run_seed, int tier) override {
     Plan p; p.run_seed = run_seed; Rng rc(run_seed, "cfg"), rp(run_seed, "plan");
@@ -442,7 +450,8 @@ struct C08World: World {
     int n = static_cast<int>(rp.range(2, tier ? 10 : 6));
     for (int i = 0; i < n; i++) {
       Step s; unsigned roll = static_cast<unsigned>(rp.below(100)); s.a = static_cast<i64>(rp.below(3));
-      if (roll < 60) { s.kind = K_UPD; s.b = static_cast<i64>(rp.below(1000)); s.c = kind == 1 ? rp.range(1, 40) : kind == 2 ? rp.range(1, tier ? 90 : 50) : rp.range(1, tier ? 60 : 30); }
+      if (roll < 52) { s.kind = K_UPD; s.b = static_cast<i64>(rp.below(1000)); s.c = kind == 1 ? rp.range(1, 40) : kind == 2 ? rp.range(1, tier ? 90 : 50) : rp.range(1, tier ? 60 : 30); }
+      else if (roll < 60) { s.kind = K_QUERY; s.b = static_cast<i64>(rp.below(1000)); }
       else if (roll < 85) { s.kind = K_MERGE; s.b = static_cast<i64>(rp.below(3)); }
       else { s.kind = K_NEW; s.b = static_cast<i64>(rp.below(kind == 2 ? 5 : kind == 0 ? 5 : 2)); }   // classic: k in {2, 4, 4, 8, 16}, so that down-sampling merges with strides 2, 4, 8 occur   // kll: k in {8, 8, 9, 12, 20} so that merge trees mix k
       p.steps.push_back(s);
@@ -503,13 +512,25 @@ struct C08StatWorld: World {
         SimRandom rnd(mix(p.run_seed, static_cast<u64>(t))); RandomScope rs(rnd);
         std::unique_ptr<S> s = build<S>([&]() { return ReqKind<float>::make(ki, hra); }, n, order, mode);
         for (size_t q = 0; q < pos.size(); q++) { const i64 v = hra ? n - pos[q] + 1 : pos[q]; const double tr = static_cast<double>(v) / static_cast<double>(n), est = s->get_rank(static_cast<float>(v), true);
-          for (int nsd = 1; nsd <= 3; nsd++) { const double lb = s->get_rank_lower_bound(est, static_cast<uint8_t>(nsd)), ub = s->get_rank_upper_bound(est, static_cast<uint8_t>(nsd)); if (tr < lb - 1e-12 || tr > ub + 1e-12) miss[q][static_cast<size_t>(nsd)]++; if (nsd == 3 && lb == ub && std::fabs(est - tr) > 1e-12) { const double zone = static_cast<double>(3 * k) / static_cast<double>(n); if (hra ? est >= 1.0 - zone - 1e-12 : est <= zone + 1e-12) exact_wrong[q]++; else exact_wrong_beyond[q]++; } } }
+          for (int nsd = 1; nsd <= 3; nsd++) { const double lb = s->get_rank_lower_bound(est, static_cast<uint8_t>(nsd)), ub = s->get_rank_upper_bound(est, static_cast<uint8_t>(nsd)); if (tr < lb - 1e-12 || tr > ub + 1e-12) miss[q][static_cast<size_t>(nsd)]++; if (nsd == 3 && lb == ub && std::fabs(est - tr) > 1e-12) { const double zone = static_cast<double>(3 * k) / static_cast<double>(n); if (pos[q] > 3 * k && (hra ? est >= 1.0 - zone - 1e-12 : est <= zone + 1e-12)) exact_wrong[q]++; else exact_wrong_beyond[q]++; } } }
       }
       static const double claim[4] = { 0, 0.3173, 0.0455, 0.0027 };
       // a rank the sketch declares exact (zero-width bounds) must be exact under every coin sequence. Two cases: the estimate itself lies within the
       // never-compacted 3k items of the accurate end (the item is just outside and its estimate is off by an item or two), or it does not.
       // Classes are evaluated one after the other over all query points, so that a failure of one class cannot hide another class further on.
-      for (size_t q = 0; q < pos.size(); q++) if (exact_wrong_beyond[q]) ctx.fail("C08|req|rank-declared-exact-is-wrong|estimate-beyond-the-exact-zone", "item " + std::to_string(pos[q]) + " from the accurate end: wrong in " + std::to_string(exact_wrong_beyond[q]) + " of " + std::to_string(T) + " coin sequences" + cell);
+      for (size_t q = 0; q < pos.size(); q++) if (exact_wrong_beyond[q]) ctx.fail(std::string("C08|req|rank-declared-exact-is-wrong|") + (pos[q] <= 3 * k ? "item-inside-the-exact-zone" : "estimate-beyond-the-exact-zone"), "item " + std::to_string(pos[q]) + " from the accurate end: wrong in " + std::to_string(exact_wrong_beyond[q]) + " of " + std::to_string(T) + " coin sequences" + cell);
+      // the exact zone under merges at arbitrary split points: two sketches of lengths a and n2 - a, merged; every one of the 3k items nearest to the accurate end
+      // must be ranked exactly under every coin sequence (few sequences per scenario, many scenarios)
+      { Rng rs2(p.run_seed, "splits");
+        for (int sc = 0; sc < 40; sc++) { const i64 n2 = 6 * k + 1 + static_cast<i64>(rs2.below(static_cast<u64>(30 * k))), a = 1 + static_cast<i64>(rs2.below(static_cast<u64>(n2 - 1)));
+          for (int t = 0; t < 4; t++) { SimRandom rnd(mix(p.run_seed, static_cast<u64>(1000000 + sc * 16 + t))); RandomScope rsc(rnd);
+            S sa(ReqKind<float>::make(ki, hra)), sb(ReqKind<float>::make(ki, hra));
+            for (i64 i = 0; i < n2; i++) { const float v = static_cast<float>(value_at(i, n2, order)); if (i < a) sa.update(v); else sb.update(v); }
+            if (t & 1) sa.merge(sb); else { sb.merge(sa); std::swap(sa, sb); }
+            for (i64 d = 1; d <= 3 * k && d <= n2; d++) { const i64 v = hra ? n2 - d + 1 : d; const double tr = static_cast<double>(v) / static_cast<double>(n2), est = sa.get_rank(static_cast<float>(v), true);
+              if (std::fabs(est - tr) > 1e-12) ctx.fail("C08|req|rank-declared-exact-is-wrong|item-inside-the-exact-zone", "item " + std::to_string(d) + " from the accurate end: estimated rank " + std::to_string(est * static_cast<double>(n2)) + "/" + std::to_string(n2) + " true " + std::to_string(v) + "/" + std::to_string(n2) + " after merging sketches of " + std::to_string(a) + " and " + std::to_string(n2 - a) + " items (k=" + std::to_string(k) + (hra ? " hra" : " lra") + " order=" + std::to_string(order) + ")"); }
+            ctx.check(); } }
+        ctx.probe("exact_zone_merge_scenarios", 40); }
       for (size_t q = 0; q < pos.size(); q++) if (exact_wrong[q]) ctx.fail("C08|req|rank-declared-exact-is-wrong|estimate-inside-the-exact-zone", "item " + std::to_string(pos[q]) + " from the accurate end: wrong in " + std::to_string(exact_wrong[q]) + " of " + std::to_string(T) + " coin sequences" + cell);
       for (int nsd = 3; nsd >= 1; nsd--) for (size_t q = 0; q < pos.size(); q++) verdict(ctx, "C08|req|rank-bounds-cover-less-often-than-claimed|" + std::to_string(nsd) + "-std-dev", T, miss[q][static_cast<size_t>(nsd)], claim[nsd], "item " + std::to_string(pos[q]) + " from the accurate end" + cell);
     } else {
